@@ -4,8 +4,12 @@ pub mod c01;
 #[cfg(feature = "full")]
 pub mod c02;
 pub mod c04;
+#[cfg(feature = "full")]
+pub mod c05;
 pub mod c06;
 pub mod c07;
+#[cfg(feature = "full")]
+pub mod c09;
 #[cfg(feature = "full")]
 pub mod c10;
 pub mod c12;
@@ -13,6 +17,8 @@ pub mod c12;
 pub mod c13;
 #[cfg(feature = "full")]
 pub mod c14;
+pub mod c16;
+pub mod c17;
 
 pub struct Spec {
     pub id: &'static str,
@@ -60,6 +66,15 @@ pub fn all() -> Vec<Spec> {
             exhaustive: false,
             assumptions: COMMON_ASSUMPTIONS,
         },
+        #[cfg(feature = "full")]
+        Spec {
+            id: "C05",
+            run: c05::run,
+            level: "exploration",
+            rule: "server monitor: the generated server is configured with every ordered subset of {gzip,deflate,zstd} for sending x for accepting (16x16 grid walked systematically) and called directly with handcrafted requests over the 4 call shapes: grpc-accept-encoding from a grammar (permutations, OWS, empty items, unknown and near-miss tokens, duplicates, non-ASCII, absent), grpc-encoding in {absent, identity, each encoding, unknown, multi-token, non-UTF-8}, frames flagged 0/1, handler opt-out. client monitor: the generated client with every send/accept configuration against a capture service and scripted responses (grpc-encoding enabled / not enabled / identity / absent / unknown, flag 0/1). Oracle = negotiation model from the property text (response encoding in send INTERSECT offered, announced iff chosen, flag-1 frames decompress with it; non-enabled request/response encoding => UNIMPLEMENTED with grpc-accept-encoding listing exactly the enabled ones; flag 1 without encoding => INTERNAL; client sends/advertises exactly its configuration). Fingerprint = side|shape|#send|#accept|offer class|response encoding|request encoding|flag. Non-trivial = any compression configured, offered or refused.",
+            exhaustive: false,
+            assumptions: COMMON_ASSUMPTIONS,
+        },
         Spec {
             id: "C06",
             run: c06::run,
@@ -73,6 +88,15 @@ pub fn all() -> Vec<Spec> {
             run: c07::run,
             level: "exploration",
             rule: "a valid stream (0..5 messages, any encoding, raw or prost codec) is mutated by one of 15 classes (bitflip, illegal flag, flag 1 without encoding, length +/- d, truncation, splice, duplicated prefix, garbage compressed payload, undecodable protobuf, raw random, huge declared length, over-limit, injected body error, or left valid), re-cut by 7 cut styles, optionally followed by OK / error / garbage trailers, and decoded by the real Streaming which is polled 8 more times after its first End/Err; monitor `truncate-all` truncates small streams at every byte. Oracle = reference framing parser + lenient independent decompressor + small protobuf parser deciding prefix-validity, must-fail / must-not-fail and finality. Fingerprint = mutation|enc|codec|direction|cut style|trailers kind|injected|#yielded|terminal. Non-trivial = any case whose input is not the unmutated valid stream.",
+            exhaustive: false,
+            assumptions: COMMON_ASSUMPTIONS,
+        },
+        #[cfg(feature = "full")]
+        Spec {
+            id: "C09",
+            run: c09::run,
+            level: "exploration",
+            rule: "encode: Request::set_timeout on a boundary grid (10^k-1/10^k/10^k+1 of every unit, 99999999 of every unit and just beyond, 0, the 99999999 h maximum) plus random magnitudes; the header must match 1*8DIGIT unit, denote <= the request and lose < one unit (oracle: the harness's own parser), and the real parser (hook) must read it back. parse (hook): every unit x 1..8 digits x {all 9s, 10..0, all 0s, leading zeros, random} enumerated, plus malformed values (empty, no digits, bad unit, 9+ digits, signs, spaces, non-ASCII digits, fractions, exponents, huge) which must not be accepted. enforce: triples (caller grpc-timeout, Server::timeout, Endpoint::timeout, each optional) x handler latency at eff-2/eff+2/half/double/tie over the real Endpoint/Server on a paused clock: latency < eff => true outcome; latency > eff => CANCELLED 'Timeout expired' at virtual elapsed in [eff, eff+2 ms]; ties excluded. Fingerprint = leg|unit|digits / malformed class / which timeouts are set|relation. Non-trivial = every encode/parse case, enforcement cases with a strict before/after relation.",
             exhaustive: false,
             assumptions: COMMON_ASSUMPTIONS,
         },
@@ -108,6 +132,22 @@ pub fn all() -> Vec<Spec> {
             run: c14::run,
             level: "fault_enumeration",
             rule: "fault scripts = (lazy|eager) x connect outcomes in {fail, ok}^<=3 x operations in {call, kill}^<=4 enumerated (all 1800 in thorough, a seeded sample of 300 in quick) plus sampled longer scripts (<=8 outcomes, <=10 operations incl. back-to-back calls); a scripted connector consumes one outcome per invocation and hands the peer half of a fragmenting in-memory pipe to a real tonic server; `kill` resets the live pipe (wakes parked I/O); a generated-client call is issued at each quiescent point of a paused clock. Oracle = reference model driven by the connector invocations observed during each call (live => Ok with no attempt; attempt ok => Ok; attempts all failed => UNAVAILABLE; no attempt while disconnected => violation; eager initial failure => Err after exactly one invocation; every call resolves within 60 virtual seconds; Ok => handler ran once). Fingerprint = lazy/eager + sequence of model transitions. Non-trivial = contains a kill, a failed attempt or an eager initial failure.",
+            exhaustive: false,
+            assumptions: COMMON_ASSUMPTIONS,
+        },
+        Spec {
+            id: "C16",
+            run: c16::run,
+            level: "exploration",
+            rule: "response monitor: the inner gRPC service answers with 0..4 message frames (0..3000 bytes, flag 0/1) re-cut by 7 cut styles (frames split across and merged into body chunks, empty chunks, Pending) and generated trailers (':' and spaces in values, repeated names); the request's Accept picks binary or base64 text; an independent grpc-web decoder (own base64, own frame parser, own HTTP/1 block parser) must recover the identical message bytes, then exactly one 0x80 frame listing every trailer, nothing after, and the content-type that matches Accept. request monitor: gRPC bytes encoded by the harness as binary or as one base64 run (padded or not), cut at arbitrary positions incl. every position mod 4, must reach the inner service as the original bytes with content-type application/grpc and te: trailers, head otherwise intact. matrix monitor: all 7 methods x 3 versions x 10 content-types: 405 / 400 / served / untouched pass-through (exhaustive, 210 cases). Fingerprint = leg|text/binary|#frames|#trailers|cut style|accept (or the matrix cell). Non-trivial = at least one frame and one cut; every matrix cell.",
+            exhaustive: false,
+            assumptions: COMMON_ASSUMPTIONS,
+        },
+        Spec {
+            id: "C17",
+            run: c17::run,
+            level: "exploration",
+            rule: "grpc-web response bodies built by the harness's own encoder (0..4 message frames of 0..3000 bytes with flag 0/1, then one 0x80 frame whose block lists generated trailers: values containing ':' and spaces, repeated names, optional space after the colon, grpc-status at any position) are delivered through GrpcWebClientService under 7 cut styles; monitor `allcuts` applies every single cut, every double cut among the first 30 bytes and every double cut around the trailers frame to small bodies; monitor `truncate` cuts small bodies off at every byte. Oracle: data bytes = the message frames, trailers equal as multimap, nothing after the end; truncation strictly inside a frame must produce an error; always: no panic, no Pending without wake-up, inner body not polled >64 times after its end, poll budget. Monitor `request` checks the request direction. Fingerprint = leg|what the cuts hit (+colon, +repeated)|#frames|#trailers|cut style. Non-trivial = at least one message frame and one cut (complete), any truncation strictly inside a frame.",
             exhaustive: false,
             assumptions: COMMON_ASSUMPTIONS,
         },
